@@ -158,7 +158,7 @@ def run(ctx):
                                          "cases.testDictString", "casesTL2.testObject", "cases.TestUnion"])))
         units.append(MigUnit("goldmaster_all", "repo", [TLS / "goldmaster.tl", TLS / "goldmaster2.tl", TLS / "goldmaster3.tl"], "*"))
         import randschema
-        n_r, n_go = (10, 2) if quick else (60, 60)
+        n_r, n_go = (10, 1) if quick else (60, 60)
         rand_units = []
         for i in range(n_r):
             d = ctx.scratch / f"rm{i}"
@@ -183,7 +183,7 @@ def run(ctx):
     mark("prepare")
 
     stats = {"units": len(units), "accepted": 0, "rejected_by_migration": 0, "nothing_migrated": 0, "equiv_true": 0, "equiv_false": 0,
-             "roots": 0, "roots_certified": 0, "roots_affected": 0, "pairs": 0, "values_orig": 0, "values_mig": 0, "tl2_reads": 0, "json_reads": 0, "widened_values": 0, "types_driven": 0}
+             "roots": 0, "roots_certified": 0, "roots_affected": 0, "pairs": 0, "values_orig": 0, "values_mig": 0, "tl2_reads": 0, "json_reads": 0, "widened_values": 0, "types_driven": 0, "distinguishing_values": 0}
     kinds, samples = {}, []
     bad, infra, mism = [], [], []
     lock = threading.Lock()
@@ -194,6 +194,7 @@ def run(ctx):
         r = rngs[u.name]
         st = {k: 0 for k in stats}
         ubad, uinfra = [], []
+        affected_names = set()
         replay = {"unit": u.name, "whitelist": u.wl, "schema": [str(f) for f in u.files] if u.kind.startswith("repo") else "".join(f.read_text() for f in u.files)}
         op = f"tl2gen --language=tl2migration --tl2WhiteList={u.wl} {' '.join(f.name for f in u.files)} [{u.name}]"
         if u.accepted is False:
@@ -239,13 +240,14 @@ def run(ctx):
                         x, y = u.A[a], u.B[b]
                         fixed = x["kind"] == "array" and y["kind"] == "array" and x.get("isTuple") and not x.get("dynamicSize") and not y.get("isTuple")
                         sig = f"{pid}:equiv:fixed-size-array-becomes-vector" if fixed else f"{pid}:equiv:{u.name}:{x['name']}"
-                        ubad.append((sig, f"{op}: tl2_equiv rejects the pair: original {x['kind']} {x['name']} vs migrated {y['kind']} {y['name']}",
-                                     dict(replay, original=x, migrated=y)))
+                        ubad.append([sig, f"{op}: tl2_equiv rejects the pair: original {x['kind']} {x['name']} vs migrated {y['kind']} {y['name']}",
+                                     dict(replay, original=x, migrated=y)])
                 if not badpairs:
                     ubad.append((f"{pid}:equiv:{u.name}", f"{op}: tl2_equiv rejects: {res}", replay))
                 # the roots that do not reach a rejected pair are certified on their own closure
                 good = [rt for rt in roots if not (set(tlo_lib.mig_closure(u.A, u.B, rt)) & badpairs)]
                 st["roots_affected"] += len(roots) - len(good)
+                affected_names.update(u.B[b]["tlName"] for a, b in roots if (a, b) not in good)
                 if good and badpairs:
                     phi2 = tlo_lib.mig_phi(u.A, u.B, good)
                     res2 = equiv(phi2, good)
@@ -263,6 +265,24 @@ def run(ctx):
             common = sorted(n for n in set(io) & set(im) if io[n][4] == "true" and im[n][4] == "true" and n in migrated_names)
             st["types_driven"] += len(common)
             root_of = {x["tlName"]: x["id"] for x in u.A if x.get("topLevel") and x.get("tlName")}
+            # distinguishing values for the types tl2_equiv rejects: the empty JSON object (all defaults) read by the migrated
+            # package, its TL2 bytes read and rewritten by the original package
+            probe = sorted(affected_names & set(io) & set(im))[:8]
+            if probe:
+                pm = run_lines_resilient(exe, [], [f"m mreadj {n} 7b7d" for n in probe], timeout=300)
+                dist = []
+                for n, o in zip(probe, pm):
+                    f = o.split(" ")
+                    if f[0] == "ok":
+                        back = run_lines_resilient(exe, [], [f"o mread2 {n} {f[1]}"], timeout=300)[0]
+                        if back != f"ok {0 if f[1] == '-' else len(f[1]) // 2} {f[1]} {f[2]}":
+                            dist.append({"type": n, "value_json": "{}", "migrated_tl2": f[1], "migrated_json": bytes.fromhex(f[2]).decode("utf-8", "replace") if f[2] not in ("-", "jsonerr") else f[2],
+                                         "original_reads_it_as": back})
+                st["distinguishing_values"] += len(dist)
+                for b in ubad:
+                    if b[0].startswith(f"{pid}:equiv:") and dist:
+                        b[2]["distinguishing"] = dist[:3]
+                        b[1] += f"; distinguishing value of {dist[0]['type']}: JSON {{}} is TL2 {dist[0]['migrated_tl2']} under the migrated schema, the original rewrites it as {trunc(dist[0]['original_reads_it_as'], 80)}"
             # direction 1: values of the original package
             l1 = [f"o mrand {n} {r.getrandbits(48)}" for n in common for _ in range(nvals)]
             o1 = run_lines_resilient(exe, [], l1, timeout=600)
@@ -327,7 +347,9 @@ def run(ctx):
     mark("run")
     ctx.notes["phase_end_s"] = phases
 
-    for sig, what, data in bad[:40]:
+    # value-level failures (a concrete value with differing bytes / JSON) first, then the checker's structural rejections
+    bad.sort(key=lambda b: 0 if b[0].split(":")[1] in ("tl2", "json") else 1)
+    for sig, what, data in bad[:60]:
         ctx.violation(sig, what, data)
     if not ctx.violations:
         if not thm["ok"]:
